@@ -41,7 +41,7 @@ from lib import stage
 
 ID = "C20"
 NEEDS_GEN = True
-LEAN_TARGETS = ["AiuVerif.Props.C20", "AiuVerif.Props.Order"]
+LEAN_TARGETS = ["AiuVerif.Props.C20", "AiuVerif.Props.Order", "AiuVerif.Props.C20Link"]
 THEOREMS = [
     "AiuVerif.C20.hull_spec",
     "AiuVerif.C20.hull_spec_by_sequence",
@@ -52,6 +52,8 @@ THEOREMS = [
     "AiuVerif.C20.summarize_raises",
     "AiuVerif.C20.key_collision_merges",
     "AiuVerif.C20.key_zero_not_summarized",
+    "AiuVerif.C20.block_computes_summarize",   # the registered block (shared context + shared barrier) on the streaming engine = summarize
+    "AiuVerif.C20.nothing_applied_while_streaming",
     "AiuVerif.Order.comm_order",   # registration order / guards / shared context, re-decided on the generated sites
 ]
 RULE = ("slice streams for collection -> barrier -> apply: exhaustive streams of up to 3 (quick) / 4 (thorough) "
@@ -67,8 +69,9 @@ TRUSTED = ["regular expression `[_-](\\d+)` is modelled for ASCII digits; `int(s
 ASSUMPTIONS = ["KeysInjective: int(str(jobhash)+digits) separates the (file, sequence number) pairs of the stream",
                "KeysNonzero: no (file, sequence number) pair has key 0 (Python treats key 0 as 'no sequence')",
                "uids of the input slices are distinct (identity used to match outputs to inputs)"]
-NOT_YET_PROVED = ["count_balanced at pipeline level (nothing between collection and apply drops a slice) rests on the "
-                  "C03 engine theorems and the registration order; here it is checked by the stage-level and e2e runs"]
+NOT_YET_PROVED = ["that the stages registered BEFORE the block hand it the slices unchanged is outside this model (C01's "
+                  "conservation classes); the block itself - shared context, shared barrier, streaming engine - is "
+                  "proved to compute summarize (C20Link.block_computes_summarize)"]
 
 SEQ_RE = re.compile(r"[_-](\d+)")
 
